@@ -104,10 +104,17 @@ impl VF for SymF {
         (syms, defs)
     }
     fn assume_ne<R>(f: impl FnOnce() -> R) -> R {
-        let old = crate::set_unknown(crate::Unknown::AssumeNe);
-        let r = f();
-        crate::set_unknown(old);
-        r
+        // restored on unwind too, so that a caller may catch a panic of the code under test
+        struct Restore(Option<crate::Unknown>);
+        impl Drop for Restore {
+            fn drop(&mut self) {
+                if let Some(u) = self.0.take() {
+                    crate::set_unknown(u);
+                }
+            }
+        }
+        let _g = Restore(Some(crate::set_unknown(crate::Unknown::AssumeNe)));
+        f()
     }
     fn factors(x: Self) -> Vec<Self> {
         crate::factors(x.op()).into_iter().map(SymF::from_op).collect()
